@@ -19,6 +19,7 @@ module of the repository (lazily interpreted), else it becomes an AutoMock: an i
 attributes read and set, but can never influence a decision (truth value, comparison, arithmetic, iteration raise Unsupported).
 """
 import ast
+import sys
 import types as _types
 import builtins as _bi
 import collections
@@ -243,8 +244,13 @@ class ClassRef(object):
                     decos = [d.id if isinstance(d, ast.Name) else (d.attr if isinstance(d, ast.Attribute) else "?") for d in s.decorator_list]
                     kind = "function"
                     cm = False
+                    abstract = False
                     for d in decos:
-                        if d in ("staticmethod", "classmethod", "property"):
+                        if d in ("abstractmethod", "abstractproperty"):
+                            abstract = True           # only a mark: enforced at instantiation when the hierarchy uses ABCMeta
+                            if d == "abstractproperty":
+                                kind = "property"
+                        elif d in ("staticmethod", "classmethod", "property"):
                             kind = d
                         elif d == "setter":
                             kind = "setter"
@@ -256,6 +262,8 @@ class ClassRef(object):
                         m[s.name + ".setter"] = Closure(self.interp, s, self.ctx, None, self, None, kind)
                     else:
                         m[s.name] = Closure(self.interp, s, self.ctx, None, self, None, kind, cm)
+                        if abstract:
+                            self.__dict__.setdefault("_abstract", set()).add(s.name)
                 elif isinstance(s, ast.Assign) and len(s.targets) == 1 and isinstance(s.targets[0], ast.Name):
                     m[s.targets[0].id] = ("expr", s.value)
                 elif isinstance(s, ast.ClassDef):          # nested class (PatternRegistry.DefaultPattern): a class-level attribute
@@ -303,7 +311,43 @@ class ClassRef(object):
             return True
         return any((isinstance(b, ClassRef) and b.is_sub(other)) or b is other for b in self.bases())
 
+    def uses_abcmeta(self):
+        c = self
+        while isinstance(c, ClassRef):
+            for kw in c.node.keywords:
+                if kw.arg == "metaclass" and ast.unparse(kw.value).endswith("ABCMeta"):
+                    return True
+            for b in c.node.bases:
+                t = ast.unparse(b)
+                if "ABCMeta" in t or t in ("abc.ABC", "ABC"):
+                    return True
+            nxt = [b for b in c.bases() if isinstance(b, ClassRef)]
+            c = nxt[0] if nxt else None
+        return False
+
+    def abstract_names(self):
+        """names whose most derived definition in this class's chain is marked abstract"""
+        names, c = [], self
+        while isinstance(c, ClassRef):
+            c.members()
+            names += list(c.__dict__.get("_abstract", ()))
+            nxt = [b for b in c.bases() if isinstance(b, ClassRef)]
+            c = nxt[0] if nxt else None
+        out = []
+        for nm in sorted(set(names)):
+            m, d = self.find(nm)
+            if d is not None and nm in d.__dict__.get("_abstract", ()):
+                out.append(nm)
+        return out
+
     def __call__(self, *args, **kwargs):
+        if self.__dict__.get("_abc_checked") is None:
+            try:
+                self._abc_checked = self.abstract_names() if self.uses_abcmeta() else []
+            except Unsupported:
+                self._abc_checked = []
+        if self._abc_checked:
+            raise ProgramError(TypeError("Can't instantiate abstract class %s with abstract method%s %s" % (self.name, "s" if len(self._abc_checked) > 1 else "", ", ".join(self._abc_checked))))
         inst = Instance(self)
         init, _ = self.find("__init__")
         if init is not None:
@@ -822,7 +866,7 @@ _EXC = {n: getattr(_bi, n)
 
 _PURE = {n: getattr(_bi, n)
          for n in ("len", "range", "int", "float", "bool", "str", "any", "all", "sum", "min", "max", "abs", "sorted", "reversed", "enumerate", "zip",
-                   "list", "dict", "set", "tuple", "frozenset", "complex", "round", "iter", "next", "map", "filter", "repr", "divmod", "pow", "object", "id", "callable", "hash")}
+                   "list", "dict", "set", "tuple", "frozenset", "complex", "round", "iter", "next", "map", "filter", "repr", "divmod", "pow", "object", "id", "callable", "hash", "ord", "chr", "bin", "hex", "oct", "format", "bytes", "slice", "ascii")}
 
 
 _ITER_CONSUMERS = ("list", "tuple", "set", "frozenset", "sorted", "sum", "any", "all", "min", "max", "enumerate", "zip", "reversed", "iter", "map", "filter")
@@ -963,6 +1007,9 @@ class Interp(object):
                 return obj._cls
             m, c = obj._cls.find(attr)
             if m is None:
+                ga, _c = obj._cls.find("__getattr__")
+                if isinstance(ga, Closure):
+                    return ga.bind(obj)(attr)          # the class's own fallback for attributes that normal lookup does not find
                 raise ProgramError(AttributeError("'%s' object has no attribute '%s'" % (obj._cls.name, attr)), getattr(node, "lineno", None))
             return self._member(m, c, obj)
         if isinstance(obj, ClassRef):
@@ -1439,7 +1486,15 @@ class Interp(object):
             if m is not None:
                 r = self.truth(m(a), node)
                 return r if isinstance(op, ast.In) else not r
-            if isinstance(b, (AutoMock, Instance, ClassRef, Closure)):
+            if isinstance(b, Instance):
+                # no __contains__: Python falls back to iterating the container (through __iter__ or the sequence protocol) and comparing with ==
+                r = False
+                for item in self.iterate(b, node):
+                    if item is a or self.truth(self.compare(ast.Eq(), item, a, node), node):
+                        r = True
+                        break
+                return r if isinstance(op, ast.In) else not r
+            if isinstance(b, (AutoMock, ClassRef, Closure)):
                 raise Unsupported("membership test in %r at line %s" % (b, getattr(node, "lineno", "?")))
             try:
                 r = a in b
@@ -1524,7 +1579,23 @@ class Interp(object):
         m = self._dunder(v, "__iter__")
         if m is not None:
             return iter(self.iterate(m(), node))
-        if isinstance(v, (AutoMock, Instance, ClassRef, Closure, RepoModule)):
+        if isinstance(v, Instance):
+            gi = self._dunder(v, "__getitem__")
+            if gi is not None:
+                def seq():            # the sequence protocol: x[0], x[1], ... until IndexError
+                    i = 0
+                    while True:
+                        try:
+                            item = gi(i)
+                        except ProgramError as e:
+                            if isinstance(e.exc, IndexError):
+                                return
+                            raise
+                        yield item
+                        i += 1
+                return seq()
+            raise ProgramError(TypeError("'%s' object is not iterable" % v._cls.name), getattr(node, "lineno", None))
+        if isinstance(v, (AutoMock, ClassRef, Closure, RepoModule)):
             raise Unsupported("iteration over %r at line %s" % (v, getattr(node, "lineno", "?")))
         try:
             return iter(v)
@@ -1812,7 +1883,7 @@ class Interp(object):
 
     def s_Assert(self, s, fr):
         if not self.truth(self.ev(s.test, fr), s):
-            raise ProgramError(AssertionError(unparse(s.test)), s.lineno)
+            raise ProgramError(AssertionError(*([self.ev(s.msg, fr)] if s.msg is not None else [])), s.lineno)
 
     def s_Try(self, s, fr):
         try:
@@ -2293,8 +2364,21 @@ def stdlib_overrides(state=None):
     it.chain = itertools.chain
     m = Namespace("math", **{k: getattr(math, k) for k in dir(math) if not k.startswith("_")})
     op = Namespace("operator", **{k: getattr(operator, k) for k in ("itemgetter", "attrgetter", "add", "sub", "mul", "eq", "ne", "lt", "le", "gt", "ge", "not_", "truth")})
-    warnings_ns = Namespace("warnings", warn=lambda *a, **k: None, simplefilter=lambda *a, **k: None, filterwarnings=lambda *a, **k: None)
+    class _CatchWarnings(object):          # warnings.catch_warnings(): entering and leaving changes nothing the analysed code can observe here
+        _sa_mock = True
+
+        def __init__(self, *a, **k):
+            pass
+
+        def __enter__(self):
+            return []
+
+        def __exit__(self, *a):
+            return False
+    warnings_ns = Namespace("warnings", warn=lambda *a, **k: None, simplefilter=lambda *a, **k: None, filterwarnings=lambda *a, **k: None, catch_warnings=_CatchWarnings)
     ov = {"numpy": numpy_namespace(), "scipy": scipy_ns, "scipy.sparse": sparse, "scipy.sparse.csr": sparse.csr, "logging": logging_ns, "warnings": warnings_ns,
           "itertools": it, "math": m, "collections": coll, "operator": op,
-          "types": Namespace("types", MethodType=MethodTypeMarker, FunctionType=FunctionTypeMarker)}
+          "types": Namespace("types", MethodType=MethodTypeMarker, FunctionType=FunctionTypeMarker),
+          "sys": Namespace("sys", version_info=sys.version_info, maxsize=sys.maxsize, platform="linux", float_info=sys.float_info, getdefaultencoding=lambda: "utf-8",
+                           byteorder=sys.byteorder)}
     return ov, state
